@@ -3,11 +3,11 @@
 # (engine, quick runs, thorough runs, engine options)
 PLAN = {
     "C01": [("A", 40000, 3000000, {}), ("B", 2000, 200000, {})],
-    "C02": [("A", 40000, 3000000, {})],
+    "C02": [("A", 40000, 3000000, {}), ("BELT", 15000, 1500000, {})],
     "C03": [("B", 4000, 400000, {})],
     "C04": [("A", 40000, 3000000, {})],
     "C05": [("A", 40000, 3000000, {})],
-    "C06": [("A", 40000, 3000000, {}), ("B", 2000, 200000, {})],
+    "C06": [("A", 40000, 3000000, {}), ("BELT", 15000, 1500000, {}), ("B", 2000, 200000, {})],
     "C07": [("A", 20000, 1500000, {})],
     "C08": [("B", 4000, 400000, {"p_chaos_consumer": 0.4})],
     "C09": [("B", 4000, 400000, {"p_chaos_consumer": 0.45})],
@@ -20,7 +20,7 @@ PLAN = {
     "C16": [("B", 4000, 400000, {})],
     "C17": [("B", 4000, 400000, {})],
     "C18": [("A", 20000, 2000000, {}), ("B", 2500, 250000, {})],
-    "C19": [("B", 800, 20000, {"c19": True, "keep_digests": True})],
+    "C19": [("B", 800, 20000, {"c19": True, "keep_digests": True, "conv_bias_p": 0.3})],
     "C20": [("B", 6000, 500000, {"wide": True, "invalid": 0.3}), ("A", 10000, 1000000, {"kinds": ["fls", "flt", "cconv", "sconv", "buf"]})],
 }
 
@@ -57,3 +57,8 @@ COMPONENTS_STUB = ["client processes (generators hosted in real simpy.Process ob
 
 FAULTS_NOT_INJECTED = ("message loss/duplication, partitions, disk errors, clock skew, allocation failure: the library has no "
                        "network, storage or second clock; nothing in it could meet them")
+
+
+def c19_opts():
+    """Generator options of the C19 population (the fresh-interpreter workers must generate the very same cases)."""
+    return dict(PLAN["C19"][0][3])
